@@ -200,7 +200,11 @@ func init() {
 	intrinsics[B+"Bytes"] = func(c *Ctx, fr *frame, fn *ssa.Function, a []value, pos token.Pos) value {
 		x := c.bigOf(a[0], pos)
 		n := c.byteLenSplit(x, c.h.maxBigBits/8, pos)
-		return beBytes(absT(x), n)
+		ax := absT(x)
+		if n > 0 {
+			ax = Refine(ax, Pow2(8*(n-1)), new(big.Int).Sub(Pow2(8*n), bigOne))
+		}
+		return beBytes(ax, n)
 	}
 	intrinsics[B+"FillBytes"] = func(c *Ctx, fr *frame, fn *ssa.Function, a []value, pos token.Pos) value {
 		x := absT(c.bigOf(a[0], pos))
@@ -484,6 +488,9 @@ func init() {
 	intrinsics[U+"Bytes"] = func(c *Ctx, fr *frame, fn *ssa.Function, a []value, pos token.Pos) value {
 		x := uOf(c, a[0], pos)
 		n := c.byteLenSplit(x, 32, pos)
+		if n > 0 {
+			x = Refine(x, Pow2(8*(n-1)), new(big.Int).Sub(Pow2(8*n), bigOne))
+		}
 		return beBytes(x, n)
 	}
 	intrinsics[U+"BitLen"] = func(c *Ctx, fr *frame, fn *ssa.Function, a []value, pos token.Pos) value {
